@@ -301,6 +301,22 @@ func Generate(seed uint64, profile string) *Project {
 		p.Controllers = append(p.Controllers, x)
 	}
 
+	// (swarm, own stream) controllers declared inside a documented "type ( ... )" block; order profile: enums with
+	// one more constant that repeats the first one's value
+	sr2 := Stream(seed, "projgen/decl-shapes/"+profile, 0)
+	for ci := range p.Controllers {
+		if sr2.Chance(1, 4) {
+			p.Controllers[ci].Grouped = true
+		}
+	}
+	if profile == "order" {
+		for ei := range p.Enums {
+			if sr2.Chance(1, 3) {
+				p.Enums[ei].AliasConst = true
+			}
+		}
+	}
+
 	// (swarm, own stream) a controller with NO doc comment at all (no @Route, @Tag, description, @Security) that
 	// is not the first of its package: whatever gleece remembers from the declaration before it must not leak
 	if br := Stream(seed, "projgen/bare-controller/"+profile, 0); br.Chance(1, 4) && len(p.Controllers) > 1 {
@@ -936,6 +952,9 @@ func (g *genState) method(c *Controller, idx int, file string) Method {
 					st.Slice = true
 				case 2:
 					st.Map = g.profile == "order"
+				}
+				if st.Slice && Stream(g.p.Seed, "projgen/elem-ptr/"+c.Name+"."+m.Name, 0).Chance(1, 2) {
+					st.ElemPtr = true // []*T: elements may be nil
 				}
 				m.RetType = st
 			} else {
